@@ -539,17 +539,18 @@ func (j *jsonReader) Interval(tag int) (time.Duration, error) {
 		if err != nil {
 			return 0, err
 		}
+		// Check integer bounds: an interval is an unsigned 32 bits number of seconds
+		if n < 0 || n > math.MaxUint32 {
+			return 0, Errorf("integer is out of bound")
+		}
 		return time.Duration(n) * time.Second, j.Next()
 	case string:
 		parsed, err := parseUint(val, 32)
 		if err != nil {
 			return 0, err
 		}
-		// Check integer bounds
-		if parsed > math.MaxInt64 {
-			return 0, Errorf("integer is out of bound")
-		}
-		return time.Duration(parsed), j.Next()
+		//nolint:gosec // this cast is safe as we are parsing a 32 bits value
+		return time.Duration(parsed) * time.Second, j.Next()
 	default:
 		return 0, Errorf("Invalid interval value %q", val)
 	}
